@@ -31,7 +31,7 @@ def gen_filter_pair(rng, pfilter):
     return rng.choice(FILTERS[3:]), rng.choice(FILTERS[3:])
 
 
-def gen_sub(rng, mode, g, sizes, ttls, tags):
+def gen_sub(rng, mode, g, sizes, ttls, tags, flight=False, limit=0):
     top = g["top"]
     r = rng.random()
     if r < 0.18:
@@ -97,15 +97,22 @@ def gen_sub(rng, mode, g, sizes, ttls, tags):
         if cf != "-" and sf == "-":
             sf = cf
         cf, rej = "-", 0
+    ov = ""
+    if cache and rng.random() < (0.6 if flight else 0.1):
+        # an unrelated forward Node.History parked in the broker while the subscribe runs; usually with the
+        # limit the cache recovery read itself uses (1 without filters, else RecoveryMaxPublicationLimit / no limit)
+        same = 1 if (cf == "-" and sf == "-") else (limit if limit > 0 else -1)
+        ov = f" ov={same if rng.random() < 0.8 else rng.choice([1, -1, 2])}"
     return (f"sub via={via} mode={mode} rec={rec} auto={auto} off={off} ep={ep} rej={rej} delta={delta} "
-            f"cf={cf} sf={sf} h={h} w={w}")
+            f"cf={cf} sf={sf} h={h} w={w}{ov}")
 
 
 def gen_scenario(rng, mode):
     """mode: 'stream' | 'cache' | 'mixed' (per-sub choice)."""
     meta = rng.choice([3, 4, 6, 10, 20, 60])
     limit = rng.choice([0, 0, 0, 1, 2, 3, 5])
-    ops = [f"reset meta={meta} limit={limit}"]
+    flight = mode != "stream" and rng.random() < 0.4
+    ops = [f"reset meta={meta} limit={limit}" + (" flight=1" if flight else "")]
     size = rng.choice([1, 2, 3, 4, 6, 10])
     ttl = rng.choice([2, 3, 5, 8, 30])
     sizes = [size, size, size, rng.choice([1, 2, 5])]
@@ -121,7 +128,7 @@ def gen_scenario(rng, mode):
 
     def one_sub():
         m = mode if mode != "mixed" else rng.choice(["stream", "cache"])
-        line = gen_sub(rng, m, g, sizes, ttls, tags)
+        line = gen_sub(rng, m, g, sizes, ttls, tags, flight, limit)
         touch()
         wspec = kvs(line).get("w", "-")
         if wspec != "-":
@@ -233,6 +240,7 @@ class Track:
         d = kvs(reset_line)
         self.meta = int(d.get("meta", "0"))
         self.limit = int(d.get("limit", "0"))
+        self.flight = d.get("flight") == "1"
         self.log = {}       # epoch -> list of (offset, tag, id)
         self.nextid = 1
         self.removes = 0
@@ -529,6 +537,12 @@ def c03_oracle(opline, out, track):
 def c03_branch(op, f, track):
     keys = ["via:" + op.get("via", "cmd")]
     pre = f["pre"]
+    if track.flight:
+        keys.append("config:UseSingleFlight")
+    if op.get("ov", "-") != "-":
+        keys.append("overlap:forward-history-parked")
+        if track.flight and pre["n"] > 1 and f["attempted"]:
+            keys.append("overlap:singleflight,several-retained")
     if f["fresh"]:
         keys.append("state:no-stream(meta-expired-or-never)")
     elif pre["top"] == 0:
